@@ -53,13 +53,16 @@ def classify(case, r, t, gid):
     bats = set(case["scenario"]["components"].get("batteries", {}))
     kinds = set()
     gen = fixed = 0.0
+    amount = {"cs": [0.0, 0.0], "bat": [0.0, 0.0]}     # [drawn, fed back] by stations / stationary batteries
     for k, v in g["loads"]:
         if k in cs_keys:
+            amount["cs"][0 if v > 0 else 1] += abs(v)
             if v > EPS:
                 kinds.add("cs_charge")
             elif v < -EPS:
                 kinds.add("cs_discharge")
         elif k in bats:
+            amount["bat"][0 if v > 0 else 1] += abs(v)
             if v > EPS:
                 kinds.add("bat_charge")
             elif v < -EPS:
@@ -73,6 +76,7 @@ def classify(case, r, t, gid):
         ctx.append("surplus")
     if g["cur_max_power"] < g["max_power"]:
         ctx.append("oplimit")
+    classify.amount = amount
     return "+".join(sorted(kinds)) or "none", "+".join(ctx) or "plain", fixed, gen
 
 
@@ -104,10 +108,17 @@ def check_c04(case, r):
                 kinds, ctx, fixed, gen = classify(case, r, t, gid)
                 failing = r["trace"][t].get("event_error") or r["trace"][t].get("strat_error")
                 if base_within(g, fixed, gen) and not failing:
-                    who = "vehicles" if "cs_" in kinds else ("batteries" if "bat_" in kinds else "none")
+                    # who contributes most in the direction of the overshoot
+                    am = classify.amount
+                    d = 0 if load > 0 else 1
+                    who = "none" if max(am["cs"][d], am["bat"][d]) <= EPS else (
+                        "vehicles" if am["cs"][d] >= am["bat"][d] else "batteries")
+                    if strat == "peak_load_window":
+                        # its battery/vehicle planning differs inside and outside a peak-load window
+                        who += ":in_window" if g.get("window") else ":outside_window"
                     v.append(("strategy_respects_limit",
-                              "C04:strategy_breaks_limit:%s:%s" % (
-                                  strat, "draw" if load > 0 else "feedin"),
+                              "C04:strategy_breaks_limit:%s:%s:%s" % (
+                                  strat, "draw" if load > 0 else "feedin", who),
                               "step %d %s: load %r limit %r (fixed %r, generation %r alone are within; "
                               "contributors %s (%s); context %s)" % (t, gid, load, lim, fixed, gen, kinds, who, ctx)))
     return v
@@ -264,10 +275,24 @@ def check_c06(case, r):
             if not close(s1 - s0, want, rel=1e-7, ab=1e-9):
                 # a step with both a charge and a discharge of this battery is judged on its operations
                 ops = [o for o in rec.get("ops", []) if o[1] == "veh:" + vid]
-                ops_want = sum((o[4] * dt_h * eta / cap) if o[0] == "load" else (-o[4] * dt_h / (eta * cap))
-                               for o in ops)
-                kinds = set(o[0] for o in ops if abs(o[4]) > EPS)
-                if not (len(kinds) == 2 and close(s1 - s0, ops_want, rel=1e-7, ab=1e-9)):
+                # the operations that were kept: the chain that leads from the SoC before the strategy step to
+                # the SoC after it (look-ahead probes on the real object are restored and are not on the chain)
+                cands, chain, cur = [ops], [], s1
+                for o in reversed(ops):
+                    if o[3] == cur:
+                        chain.append(o)
+                        cur = o[2]
+                        if cur == s0:
+                            cands.append(list(chain))
+                ok = False
+                for c in cands:
+                    c_want = sum((o[4] * dt_h * eta / cap) if o[0] == "load" else (-o[4] * dt_h / (eta * cap))
+                                 for o in c)
+                    c_net = sum(o[4] if o[0] == "load" else -o[4] for o in c)
+                    kinds = set(o[0] for o in c if abs(o[4]) > EPS)
+                    if len(kinds) == 2 and close(s1 - s0, c_want, rel=1e-7, ab=1e-9) and close(p, c_net):
+                        ok = True
+                if not ok:
                     v.append(("energy_step", "C06:vehicle_energy_not_power_times_time:%s" % strat,
                               "step %d %s: dSoC %r, station power %r => expected %r"
                               % (t, vid, s1 - s0, p, want)))
